@@ -24,13 +24,18 @@ type Rec struct {
 }
 
 // Digest is the canonical rendering of the observable fields of a record / delivered message
-// (key, value, headers, millisecond timestamp): crc32 of a length-prefixed serialisation. Null and empty
-// byte strings are identified (the library returns nil for both).
+// (key, value, headers, millisecond timestamp): crc32 of a length-prefixed serialisation. A null byte string
+// (nil) has the length prefix 0xffffffff: null and empty are different things in a Kafka log (a null value is a
+// tombstone).
 func Digest(key, value []byte, headers []kafka.Header, tsMs int64) uint32 {
 	var b bytes.Buffer
 	w := func(p []byte) {
 		var l [4]byte
-		binary.BigEndian.PutUint32(l[:], uint32(len(p)))
+		if p == nil {
+			binary.BigEndian.PutUint32(l[:], 0xffffffff)
+		} else {
+			binary.BigEndian.PutUint32(l[:], uint32(len(p)))
+		}
 		b.Write(l[:])
 		b.Write(p)
 	}
